@@ -113,8 +113,11 @@ def model_class(name: str, geom_kind: str, closed: bool):
     key = (name, geom_kind, closed)
     if key in _CLASS_CACHE:
         return _CLASS_CACHE[key]
+    from porepy.applications.md_grids.model_geometries import \
+        NonMatchingSquareDomainOrthogonalFractures
     geo = {"lib2d": RectangularDomainThreeFractures, "lib3d": Lib3dGeometry,
-           "recipe": RecipeGeometry}[geom_kind]
+           "recipe": RecipeGeometry,
+           "nonmatching2d": NonMatchingSquareDomainOrthogonalFractures}[geom_kind]
     bases = [geo]
     if closed:
         if name in HAS_FLOW:
@@ -134,6 +137,13 @@ def build(cfg: dict):
     if g["kind"] == "lib2d":
         params["fracture_indices"] = list(g["fracs"])
         params["cartesian"] = bool(g["cartesian"])
+    elif g["kind"] == "nonmatching2d":
+        # library geometry with refined fracture and mortar grids (non-matching interfaces)
+        params["fracture_indices"] = list(g["fracs"])
+        params["grid_type"] = "cartesian"
+        params["meshing_arguments"] = {"cell_size": float(g.get("h", 0.25))}
+        params["fracture_refinement_ratio"] = int(g.get("frac_ratio", 2))
+        params["interface_refinement_ratio"] = int(g.get("intf_ratio", 3))
     elif g["kind"] == "lib3d":
         params["fracture_indices"] = list(g["fracs"])
         params["grid_type"] = "cartesian" if g["cartesian"] else "simplex"
